@@ -33,7 +33,8 @@ class ProcessExecutor:
                 timeout=settings.timeout_in_seconds,
                 shell=executable.is_shell,
             )
-        except ValueError as ex:
+        except (ValueError, OverflowError) as ex:
+            # OverflowError: the timeout is too large to be converted to a float
             raise ProcessExecutionException(ex)
         except OSError as ex:
             raise ProcessExecutionException(ex)
